@@ -74,6 +74,12 @@ CHECKS.update({
          "bash 5.2.15 reference; status after an expansion error compared zero/non-zero (5.2 uses 127); EXIT traps manipulated inside subshells are outside the statement; a syntax error inside eval ends a non-interactive brush (POSIX behaviour) while bash continues - that leaf is not generated", "DESIGN.md §3 C16"),
 })
 
+CHECKS.update({
+ "C18": ("metamorphic property testing (brush against itself): a generated command sequence with fault leaves is run N times in one process; resource probes and per-iteration output after N runs must equal those after 1",
+         "2.5k (quick) / 30k (thorough) sequences from the control-flow grammar with ~50 fault and resource leaves (failing redirects on every carrier, unknown commands, readonly and temporary assignments, failing functions/sourced files/recursion, process substitutions, background jobs, exec redirections), run 2..50 (quick) / 500 (thorough) times as repeated text, function body, eval or source; open descriptors and zombies read from /proc by an external helper, ${#FUNCNAME[@]}, ${#BASH_SOURCE[@]}, $#, temp-variable visibility, directory stack, `local` failing at top level, and every iteration's stdout/stderr compared with the first. Exploration.",
+         "a failure is reported only when bash satisfies the same relation on the same script and the failure reproduces in a second run; counts are sampled until stable", "DESIGN.md §3 C18"),
+})
+
 NOT_YET = {}
 
 def hooks():
